@@ -234,4 +234,23 @@ Qed.
 Lemma pass1_vec_get v c i : (c < nvals s)%nat -> In i (brs_of s c) ->
   hb_get (fold_left (step1 s) (List.seq 0 (nvals s)) v) i = if pass1_cond s v c then FORK else hb_get v i.
 Proof. apply pass1_get. Qed.
+Lemma pass_out (cond : vidx -> list hbs -> nat -> bool) v i :
+  (forall c, (c < nvals s)%nat -> ~ In i (brs_of s c)) ->
+  hb_get (fold_left (fun v c => if cond s v c then set_fork_detected s v c else v) (List.seq 0 (nvals s)) v) i = hb_get v i.
+Proof.
+  intros Hout. generalize (List.seq 0 (nvals s)) (fun c => proj1 (in_seq (nvals s) 0 c)). intros l Hl.
+  revert v; induction l as [|c l IH]; intros v; cbn [fold_left]; [reflexivity|].
+  rewrite IH by (intros c' Hc'; apply Hl; right; exact Hc').
+  assert (Hc : (c < nvals s)%nat) by (specialize (Hl c (or_introl eq_refl)); lia).
+  rewrite step_get by exact Hc.
+  destruct (existsb (Nat.eqb i) (brs_of s c)) eqn:Hex; [apply existsb_nat_mem in Hex; exfalso; exact (Hout c Hc Hex)|].
+  rewrite andb_false_r. reflexivity.
+Qed.
+Lemma detect_forks_out v i : (forall c, (c < nvals s)%nat -> ~ In i (brs_of s c)) ->
+  hb_get (detect_forks s v) i = hb_get v i.
+Proof.
+  intros Hout. rewrite detect_forks_unfold. destruct (negb (at_least_one_fork s)); [reflexivity|].
+  unfold step2, step1.
+  rewrite (pass_out pass2_cond) by exact Hout. rewrite (pass_out pass1_cond) by exact Hout. reflexivity.
+Qed.
 End Blocks.
